@@ -16,7 +16,8 @@
      before each element; aligned_to defaults to the class-wide align, else 1;
  (e) all four drivers record the entry cursor as k['innermost-pkt-pos'] before any field;
  (f) Move.pack only assigns the cursor (skipped bytes become holes, filled with '.');
-     Move.unpack reads no input bytes and stores nothing.
+     Move.unpack reads no input bytes and stores nothing; every Fragments.insert -- an empty
+     chunk included -- is recorded and moves the cursor, and tobytes fills holes (C11 1, 2, 5).
 Values returned by user callables are not decided.
 """
 import ast
@@ -99,6 +100,10 @@ def check_move(ctx):
             if p.raises():
                 continue
             al, ref, kind = case_of(gtexts(p))
+            if kind is not None and (al is None or ref is None):
+                ctx.violation('R8-move-siblings', fi, 'Move.%s path [%s] -> %s' % (side, '; '.join(sorted(gtexts(p)))[:160], canon(new_cursor(p, side)) if new_cursor(p, side) is not None else None),
+                              'the new cursor is produced without consulting %s: the six (is_alignment, reference) cases have pairwise different results, so a path that ignores the reference point is wrong for some of them' % ('is_alignment' if al is None else 'the reference point'), fi.node.lineno, clause='b')
+                continue
             if al is None or ref is None or kind is None:
                 ctx.undecided('R8-move-siblings', fi, 'path [%s]' % '; '.join(sorted(gtexts(p)))[:200], 'cannot tell which (is_alignment, reference, argument kind) case this path is', fi.node.lineno, clause='b')
                 continue
@@ -380,5 +385,9 @@ def check(ctx):
     for d in D.get_drivers(ctx.repo):
         ctx.unit('drivers')
         D.check_innermost(ctx, 'R2-innermost-pkt-pos', d)
+    # skipped bytes become holes only if every insert -- an empty chunk included -- is recorded
+    # and moves the cursor (C11 clauses 1, 2); the fill of holes is C11 clause 5
+    from .c11 import check as c11_check
+    c11_check(ctx, parts=('cursor', 'store', 'tobytes', 'fill'))
     ctx.floor('drivers analysed', ctx.units.get('drivers', 0), 4)
     ctx.trust(*ASSUMPTIONS)
